@@ -104,16 +104,46 @@ def coord_reference(I, sc):
     return ('value', r) if inrange else ('reject',)
 
 
+def digit_byte(I, name):
+    b = I.named(name, 8)
+    I.assume(z3.And(I.term(b, 8) >= 48, I.term(b, 8) <= 57))
+    if isinstance(b, Sym): b.lo, b.hi = 48, 57
+    return b
+
+
+def shaped_string(I, shape):
+    """symbolic string of a fixed grammar shape: (int digits, frac digits | None, exponent sign | None, exponent digits, tail)"""
+    nI, nF, es, nE, tail = shape
+    bs = []
+    sg = I.named('neg', 1)
+    if I.decide(sg, 'sign'): bs.append(45)
+    for k in range(nI): bs.append(digit_byte(I, 'i%d' % k))
+    if nF is not None:
+        bs.append(46)
+        for k in range(nF): bs.append(digit_byte(I, 'f%d' % k))
+    if es is not None:
+        bs.append(69 if I.decide(I.named('upper_e', 1), 'e') else 101)
+        if es < 0: bs.append(45)
+        for k in range(nE): bs.append(digit_byte(I, 'e%d' % k))
+    if tail: bs.append(tail)
+    return bs
+
+
 def h_parse(I, job):
     if I.mode != 'INT': raise Finding('harness', 'INT mode only')
-    L = job['len']
-    buf = I.new_obj(L + 1, 'str', 'heap')
-    bs = []
-    for k in range(L):
-        b = I.named('s%d' % k, 8)
-        I.assume(I.term(b, 8) != 0)
-        if isinstance(b, Sym): b.lo = max(b.lo, 1)
-        I.store(buf + k, i8, b); bs.append(b)
+    if 'shape' in job:
+        bs = shaped_string(I, job['shape']); L = len(bs)
+        buf = I.new_obj(L + 1, 'str', 'heap')
+        for k, b in enumerate(bs): I.store(buf + k, i8, b)
+    else:
+        L = job['len']
+        buf = I.new_obj(L + 1, 'str', 'heap')
+        bs = []
+        for k in range(L):
+            b = I.named('s%d' % k, 8)
+            I.assume(I.term(b, 8) != 0)
+            if isinstance(b, Sym): b.lo = max(b.lo, 1)
+            I.store(buf + k, i8, b); bs.append(b)
     I.store(buf + L, i8, 0); bs.append(0)
     sc = scan_reference(I, lambda k: bs[k] if k < len(bs) else 0)
     ref = ('reject',) if sc is None else coord_reference(I, sc)
@@ -142,6 +172,26 @@ def h_parse(I, job):
         if ref[0] == 'value':
             raise Finding('rejects-valid', 'library rejects a grammar-valid, in-range coordinate')
         I.reach('rejected')
+
+
+def shapes(tier):
+    if tier == 'quick':
+        NI, NF, EX = (1, 3, 10), (None, 1, 8, 9, 12), ((None, 0), (1, 1), (-1, 1), (1, 2))
+    else:
+        NI, NF, EX = (0, 1, 2, 3, 9, 10, 11), (None, 0, 1, 7, 8, 9, 10, 12, 27, 28), ((None, 0), (1, 1), (-1, 1), (1, 2), (-1, 2), (1, 5), (-1, 5), (1, 6))
+    out = []
+    for ni in NI:
+        for nf in NF:
+            if ni == 0 and not nf: continue
+            for (es, ne) in EX:
+                out.append((ni, nf, es, ne, 0))
+    out.append((3, 2, None, 0, 120)); out.append((2, None, 1, 1, 32))
+    return out
+
+
+def shape_inputs(sh):
+    ni, nf, es, ne, tail = sh
+    return ['i%d' % k for k in range(ni)] + ['f%d' % k for k in range(nf or 0)] + ['e%d' % k for k in range(ne if es is not None else 0)]
 
 
 def lit(s):
@@ -174,4 +224,10 @@ def harnesses(tier):
                 bounds='string length <= %d bytes; zero mantissa with decimal exponent > %d excluded (loop trip count)' % (maxlen, ZERO_EXP_BOUND), reach=('end', 'accepted', 'rejected'), sanitize=True,
                 tests=[lit(x) for x in ('1', '-1', '1.5', '.5', '1e2', '1E-2', '-', '1e', '99e9', '180', '214.7', '-214.8', '1.2e1', '0.00000', '1e-9', '5e-8', '4e-8') if len(x) <= maxlen],
                 testgen=gen_parse(maxlen), wall=900 if tier == 'quick' else 3000),
+        Harness('coord_parse_shaped', 'text', h_parse, mode='INT', jobs=[{'shape': sh} for sh in shapes(tier)],
+                desc='grammar-shaped long strings (every digit symbolic, sign and e/E symbolic): library == exact decimal reference, incl. digit-count limits',
+                bounds='shapes: int digits x fraction digits x exponent sign/digits from a boundary set (%d shapes); zero mantissa with decimal exponent > %d excluded' % (len(shapes(tier)), ZERO_EXP_BOUND),
+                reach=('end', 'accepted', 'rejected'), sanitize=True,
+                tests=[dict(_job=0, neg=0, upper_e=0, **{k: 48 + (j * 7 + 3) % 10 for j, k in enumerate(shape_inputs(shapes(tier)[0]))})],
+                wall=900 if tier == 'quick' else 3000),
     ]
